@@ -170,11 +170,30 @@ def r_C04(root):
         if isinstance(n, ast.Assign) and ast.unparse(n.targets[0]) == "self._default_obj_processors": procs = {k.value: v for k, v in zip(n.value.keys, n.value.values)}
     if procs is None: raise AnalysisError("default processors table not found")
     # b: BOOL table
-    bp = sre.parse(regs["BOOL"]); alts = list(bp)[0][1][3][0][1][1]
-    spell = ["".join(chr(x[1]) for x in a) for a in alts]
+    # the BOOL token decided with the regex engine itself (Python's re: the semantics of the pattern, a trusted base): exactly the
+    # documented spellings are accepted as a whole token, a token ends at a word boundary and what precedes it does not matter
+    import re as _re_
     SPEC = {"True": True, "true": True, "False": False, "false": False, "0": False, "1": True}
+    try: brx = _re_.compile(regs["BOOL"])
+    except _re_.error as ex_: raise AnalysisError("BOOL regex does not compile: %s" % ex_)
+    def _tok(word, before="", after=" "):
+        m_ = brx.match(before + word + after, len(before))
+        return m_ is not None and m_.end() == len(before) + len(word)
+    cands = list(SPEC) + ["TRUE", "FALSE", "tru", "truee", "True1", "2", "01", "10", "yes", "no", "on", "t", "f", "T", "F", "None", "-1", "1.0"]
+    spell = [w_ for w_ in cands if _tok(w_)]
     inst += len(SPEC)
     if set(spell) != set(SPEC): out.append(Finding("C04", "C04.b", "textx/lang.py", "BOOL", regs["BOOL"], "BOOL spellings %s differ from the documented %s" % (sorted(spell), sorted(SPEC))))
+    ctx_bad = None
+    for w_ in SPEC:
+        for before in ("", " ", ".", "a", "1", "=", "'", "("):
+            for after, want_ in ((" ", True), ("", True), (".", True), (",", True), (";", True), (")", True), ("-", True), ("a", False), ("1", False), ("_", False)):
+                if w_ + after in SPEC: continue
+                if _tok(w_, before, after) != want_ and ctx_bad is None: ctx_bad = (w_, before, after, want_)
+    inst += 1
+    ob("C04", "C04.b", "textx/lang.py", "BOOL", "a BOOL token ends at a word boundary, whatever precedes it", ctx_bad is None)
+    if ctx_bad:
+        w_, before, after, want_ = ctx_bad
+        out.append(Finding("C04", "C04.b", "textx/lang.py", "BOOL", regs["BOOL"], "the BOOL token %r preceded by %r and followed by %r is %s; documented: a BOOL literal is one of the six spellings ending at a word boundary, independent of the preceding character" % (w_, before, after, "matched" if not want_ else "not matched"), witness="v*=BOOL['.'] on 'true.false'"))
     def _as_lambda(v):
         """a processor given as a lambda, or as the name of a function whose body is a single `return <expr>`: (parameter name, expression)"""
         if isinstance(v, ast.Lambda): return v
